@@ -165,7 +165,7 @@ META = {
         "engine": "E4-schedx (+ free-running -race pass)",
         "technique": "stateless model checking of the real shared structures under a cooperative scheduler: every interleaving of 3 threads at lock / lock-free-hash operations up to a preemption bound (iterative context bounding), linearizability oracle; plus a separate free-running race-detector pass",
         "text": "13 three-thread scenarios on colliding keys over the session registry, identifier pool, in-flight table, both timeout lists, subscription and retained tries, replicated session/subscription state and the per-session filter list; sync and gotomic are replaced by scheduler-aware shims through a build overlay regenerated from the working tree on every run; every schedule with at most 2 (quick) / 3 (thorough) preemptions is executed on a fresh instance and its (results, final observation) must be explained by a sequential order of the operations consistent with real-time order; deadlocks and panics are violations. The same bodies then run free on real goroutines under the race detector (sampling, reported separately).",
-        "note": "Choice points are synchronisation operations only: unsynchronised accesses are visible to the race pass, not to the scheduler; gotomic's internal CAS loops are trusted; each hash operation is one atomic step. Round-4 additions: operations can be guarded (a client that acknowledges only once it has read the PUBLISH blocks at a scheduling point until then, and sequential orders in which the guard does not hold are infeasible); the message log's appends are explored too (the store opens the commit log through a lock-taking proxy because module-cache files cannot be overlaid); concurrent exact-topic retained lookups below a leaf and in an empty branch. Round 5: session and retained-message writes running concurrently; a target file that no longer uses package sync is taken as it is (its accesses are then visible to the race pass only). Round 6: a list returned by GetTopics must go on saying what it said (absolute outcome check); C18's split-packet phase (state shared between connections). Round 7: the graceful-shutdown phase and the whole-broker retransmission scripts are part of this check; E4 shims sync in every target file that imports it; watched sequential reference runs.",
+        "note": "Choice points are synchronisation operations only: unsynchronised accesses are visible to the race pass, not to the scheduler; gotomic's internal CAS loops are trusted; each hash operation is one atomic step. Round-4 additions: operations can be guarded (a client that acknowledges only once it has read the PUBLISH blocks at a scheduling point until then, and sequential orders in which the guard does not hold are infeasible); the message log's appends are explored too (the store opens the commit log through a lock-taking proxy because module-cache files cannot be overlaid); concurrent exact-topic retained lookups below a leaf and in an empty branch. Round 5: session and retained-message writes running concurrently; a target file that no longer uses package sync is taken as it is (its accesses are then visible to the race pass only). Round 6: a list returned by GetTopics must go on saying what it said (absolute outcome check); C18's split-packet phase (state shared between connections). Round 7: the graceful-shutdown phase and the whole-broker retransmission scripts are part of this check; E4 shims sync in every target file that imports it; watched sequential reference runs. Round 8: E4 scenario Delete(a alone in its second) / Insert(c) / Insert(d).",
     },
     "C15": {
         "engine": "E3-crashx",
@@ -189,13 +189,13 @@ META = {
         "engine": "E2-brokermc",
         "technique": "exhaustive enumeration of subscriber placements x unreachable-destination subsets x topic/filter pairs on the 2-3 node in-process broker with recording log proxies and fault-injecting inter-node transport",
         "text": "For 2 and 3 nodes: every assignment of {matching, non-matching} subscribers to nodes, every subset of remote nodes unreachable at publish time, 2-4 topic/filter pairs, QoS 1 and 2 (thorough: publisher on either node, subscription gossip of one node withheld). Each node's log must see exactly one successful append iff it hosts a matching subscription known to the publishing node and is reachable, subscribers receive the message exactly once from their own node, an unreachable destination does not stop the others, and the acknowledgement is present iff no destination failed.",
-        "note": "Destinations 'known to the publishing node' are computed from that node's subscription listing with the reference matcher (not from the lookup the publish path uses). Also: the topic published once before anybody subscribes, a second matching subscriber created last on a node, slow (not unreachable) destinations, a remote subscriber that unsubscribed without the publisher being told yet, a local session whose subscription was re-created through another node's RPC API. The inter-node connections use the production dial options (rpc.GRPCClientOptions: interceptor chain, TLS) over the in-memory listener. Round 5: an unreachable node is a real client connection whose transport is refused (the call fails or blocks as the production call options make it), not an error returned by the harness. Round 6: a subscription that comes and goes within one gossip round on a node without matching subscriber (absolute demand: no append there). E5 phase real-cluster-wiring: two real cmd/wasp brokers on loopback ports, matching subscribers on both, 5 publishes while node B is reachable and 5 after a relay in front of its RPC port was cut (never acknowledged, the local subscriber still served): an integration scenario for the wiring of package main, not an enumeration. One-late-answer deviations (client-write, log-append, rpc) around the publish with every node hosting a subscriber. Round 7: phase failed-peer (crash, 0..all clients reconnect elsewhere before the failure is reported, or their session records never arrived; afterwards no subscription of the failed node, publishes acknowledged and delivered once).",
+        "note": "Destinations 'known to the publishing node' are computed from that node's subscription listing with the reference matcher (not from the lookup the publish path uses). Also: the topic published once before anybody subscribes, a second matching subscriber created last on a node, slow (not unreachable) destinations, a remote subscriber that unsubscribed without the publisher being told yet, a local session whose subscription was re-created through another node's RPC API. The inter-node connections use the production dial options (rpc.GRPCClientOptions: interceptor chain, TLS) over the in-memory listener. Round 5: an unreachable node is a real client connection whose transport is refused (the call fails or blocks as the production call options make it), not an error returned by the harness. Round 6: a subscription that comes and goes within one gossip round on a node without matching subscriber (absolute demand: no append there). E5 phase real-cluster-wiring: two real cmd/wasp brokers on loopback ports, matching subscribers on both, 5 publishes while node B is reachable and 5 after a relay in front of its RPC port was cut (never acknowledged, the local subscriber still served): an integration scenario for the wiring of package main, not an enumeration. One-late-answer deviations (client-write, log-append, rpc) around the publish with every node hosting a subscriber. Round 7: phase failed-peer (crash, 0..all clients reconnect elsewhere before the failure is reported, or their session records never arrived; afterwards no subscription of the failed node, publishes acknowledged and delivered once). Round 8: phase filter-sets (every 3- and 4-subset of 8 filters sharing levels over three nodes).",
     },
     "C13": {
         "engine": "E2-brokermc",
         "technique": "exhaustive cross product of will parameters x termination causes x watcher placements on the 1-3 node in-process broker under virtual time",
         "text": "Will topic {w, w/x} x QoS {0,1,2} x retain x mount point {default, m1} x cause {DISCONNECT, connection loss, keep-alive expiry, protocol error, failure of the hosting node} x every non-empty subset of watcher nodes on 1-2 (quick) / 1-3 (thorough) nodes, three watchers (w, w/+, #) per node plus one in another mount point: after DISCONNECT nobody receives the will within 10 s; otherwise every surviving watcher of the same mount point whose filter matches receives it exactly once with the topic as the client wrote it, and the foreign watcher receives nothing.",
-        "note": "Watchers acknowledge promptly; which survivor publishes the will after a node failure is free; the retain flag / QoS of the delivered copy are not judged here. Also: empty will payload; a later client with the same client id in another mount point; a second tenant's will-bearing session on the failing node; failure detected 500 ms apart on three nodes; clean DISCONNECT followed by node failure with the removal overtaking the creation, or with the removal gossip lost and only a full-state exchange in between. Also: connection loss while the other nodes do not answer (their watchers' subscriptions still listed): the dying session's own node still owes its watchers the will. Round 5: connection lost before the CONNACK was written; retained wills with an empty payload. Round 6: a will larger than a gossip datagram. One-late-answer deviations under each will-owing cause (2 nodes, watchers on both). Round 7: cause malformed-packet (a SUBSCRIBE with an empty body: the decoder runs off the buffer).",
+        "note": "Watchers acknowledge promptly; which survivor publishes the will after a node failure is free; the retain flag / QoS of the delivered copy are not judged here. Also: empty will payload; a later client with the same client id in another mount point; a second tenant's will-bearing session on the failing node; failure detected 500 ms apart on three nodes; clean DISCONNECT followed by node failure with the removal overtaking the creation, or with the removal gossip lost and only a full-state exchange in between. Also: connection loss while the other nodes do not answer (their watchers' subscriptions still listed): the dying session's own node still owes its watchers the will. Round 5: connection lost before the CONNACK was written; retained wills with an empty payload. Round 6: a will larger than a gossip datagram. One-late-answer deviations under each will-owing cause (2 nodes, watchers on both). Round 7: cause malformed-packet (a SUBSCRIBE with an empty body: the decoder runs off the buffer). Round 8: cause disconnect-reconnect-in-one-gossip-round-then-leave.",
     },
     "C12": {
         "engine": "E2-brokermc",
@@ -207,13 +207,13 @@ META = {
         "engine": "E2-brokermc",
         "technique": "explicit enumeration of a session-script grammar x termination causes x gossip delivery policies on the 1-3 node in-process broker under virtual time",
         "text": "Every script connect(keep-alive 2|10 s) . up to 2 (quick) / 3 (thorough) middle events (subscribe sets, unsubscribes, ping, idle 1 s / 3.5 s / 0.9K / 1.4K, also directly after CONNACK) . cause (none, DISCONNECT, drop, silence > 2K, second CONNECT, displacement on the same / another node, failure of the hosting node) under gossip policies auto / withhold-all / reverse / withhold-one; the session must survive every legal script, and after a cause the connection is closed, record and subscriptions vanish from every node, nothing more is written to it, and every listed subscription belongs to a listed session connected on the node it names.",
-        "note": "Scripts also contain deliveries to the session followed by silence, a connection lost between SUBSCRIBE and SUBACK, and keep-alive values at the 16-bit edges (32767, 32768, 32769, 65535). A path keeps being judged after the known finding matched. Only silences <= 1.4 x keep-alive are required to be survived (any allowance >= 1.5 x keep-alive satisfies the oracle); the broker may, not must, end a session silent for > 2K; clean broker shutdown is outside the quantifier. Also: the second connection accepted by a node that has not heard of the first session yet (record arrives afterwards: the newer connection must stay served, the older be displaced and its record removed), and session ends left in a node's transmit queue while a third node is declared failed. Round 5: another client's CONNECT accepted while the connection breaks before the CONNACK can be written (nothing of it may remain). Round 6: phases pipelined-connect (packets sent behind CONNECT without waiting for CONNACK, in one write or cut at 30 / 4200 bytes) and peers-fail-together (two nodes declared failed 0 to 6 s apart). One-late-answer deviations (client-write 1..10) on short scripts with keep-alive 10 s. Round 7: phase graceful-shutdown (Manager.DisconnectClients with 1/2/3/6 sessions, alone or next to a surviving node); the world keeps the default stdout audit recorder, which fails for the harness's short session identifiers.",
+        "note": "Scripts also contain deliveries to the session followed by silence, a connection lost between SUBSCRIBE and SUBACK, and keep-alive values at the 16-bit edges (32767, 32768, 32769, 65535). A path keeps being judged after the known finding matched. Only silences <= 1.4 x keep-alive are required to be survived (any allowance >= 1.5 x keep-alive satisfies the oracle); the broker may, not must, end a session silent for > 2K; clean broker shutdown is outside the quantifier. Also: the second connection accepted by a node that has not heard of the first session yet (record arrives afterwards: the newer connection must stay served, the older be displaced and its record removed), and session ends left in a node's transmit queue while a third node is declared failed. Round 5: another client's CONNECT accepted while the connection breaks before the CONNACK can be written (nothing of it may remain). Round 6: phases pipelined-connect (packets sent behind CONNECT without waiting for CONNACK, in one write or cut at 30 / 4200 bytes) and peers-fail-together (two nodes declared failed 0 to 6 s apart). One-late-answer deviations (client-write 1..10) on short scripts with keep-alive 10 s. Round 7: phase graceful-shutdown (Manager.DisconnectClients with 1/2/3/6 sessions, alone or next to a surviving node); the world keeps the default stdout audit recorder, which fails for the harness's short session identifiers. Round 8: C03's reconnect phase (built-in handlers' session identifiers) is part of this check and judges that the current session survives the end of the previous connection.",
     },
     "C05": {
         "engine": "E2-brokermc",
         "technique": "explicit enumeration of publisher scripts x subscriber placements x write-fault subsets on a 2-node in-process broker with recording / fault-injecting log proxies and inter-node transport",
         "text": "Every publisher script up to depth 3 (quick) / 4 (thorough) over PUBLISH QoS 0/1/2 (fresh or repeated identifier, DUP or not), PUBREL for a pending / completed / unknown identifier and a handshake timeout, for destination sets {}, {local}, {remote}, {local, remote} and every subset of {local log write fails, remote node unreachable}; an acknowledgement must be preceded by a successful append on every destination log, a failed destination withholds it, and each QoS 2 handshake forwards exactly once (on PUBREL), never on PUBLISH alone or on repeats.",
-        "note": "Global sequence numbers order proxy events against client reads; what happens to the session after a repeated QoS 2 PUBLISH is recorded, not judged. Also: a client of another mount point with the publisher's client identifier releasing the publisher's pending identifier (must forward nothing), and a remote node that answers but whose log refuses the append. Round 5: the topic is published once before anybody subscribed; retain-flag variants under each write fault. Round 6: a phase with remote appends that take 0.9 to 7 s (at most one append per publish and handshake). Round 7: every event publishes on its own topic and what reaches a log must carry it; phase real-log-failure (the log directory becomes unusable one or zero entries before a segment is full; the oracle reads the log back).",
+        "note": "Global sequence numbers order proxy events against client reads; what happens to the session after a repeated QoS 2 PUBLISH is recorded, not judged. Also: a client of another mount point with the publisher's client identifier releasing the publisher's pending identifier (must forward nothing), and a remote node that answers but whose log refuses the append. Round 5: the topic is published once before anybody subscribed; retain-flag variants under each write fault. Round 6: a phase with remote appends that take 0.9 to 7 s (at most one append per publish and handshake). Round 7: every event publishes on its own topic and what reaches a log must carry it; phase real-log-failure (the log directory becomes unusable one or zero entries before a segment is full; the oracle reads the log back). Round 8: event rel-again (PUBREL for a handshake that failed or timed out); every topic of a script is published once before anybody subscribes.",
     },
     "C03": {
         "engine": "E2-brokermc",
@@ -231,7 +231,7 @@ META = {
         "engine": "E1-seqx + E2-brokermc",
         "technique": "exhaustive (filter, topic) enumeration and bounded subscription histories on the real trie / replicated state vs an MQTT 4.7 reference; explicit event exploration of the in-process broker for bytes on the wire",
         "text": "All 318k (filter, topic) pairs of up to 4 levels over {a,b,c,+,#,empty} on the real trie; every ordered pair (thorough: triple) of 53 filters with remove/re-insert for independence; every Create/Delete/DeleteSession history of depth 4 (quick) / 5 (thorough) over 2 sessions x 4 filters with ByPattern compared on 14 topics after each step and a differential equal-active-set oracle; replication echoes (own full state merged back, last broadcast redelivered) inside the histories; plus a wire phase on 1 and 2 nodes: a session holding one or an ordered pair of 10 representative filters, or reaching its set through subscribe/unsubscribe/re-subscribe histories, must read exactly one PUBLISH per matching active subscription for each of 5 topics, verbatim, while another session gets only its own.",
-        "note": "$-topics and invalid filters are outside the alphabet; the known empty-level finding is matched by recomputing the truncation the defect performs. The wire phase also lets every node be told that its peers (re)joined, and a client of another mount point connect with the subscribed session's client identifier, before the publishes: neither may cost the session a delivery. Round 5: every topic is also published once before anybody subscribes; a variant in which nothing ever happens on the publisher's node except the arrival of gossip; a third node failing (and its sessions being purged 3 s later) while the session's subscriptions are still in its node's transmit queue. Round 6: the answer to the first forwarded publish is lost on the way back (the peer stored the message). Round 7: topics with a `$` level below the first (a/$b) in the matcher and wire alphabets; the world runs the broker's own tap dispatcher, and an environment with a recorder that takes 1 s per message under a burst of 48 publishes must not cost a delivery.",
+        "note": "$-topics and invalid filters are outside the alphabet; the known empty-level finding is matched by recomputing the truncation the defect performs. The wire phase also lets every node be told that its peers (re)joined, and a client of another mount point connect with the subscribed session's client identifier, before the publishes: neither may cost the session a delivery. Round 5: every topic is also published once before anybody subscribes; a variant in which nothing ever happens on the publisher's node except the arrival of gossip; a third node failing (and its sessions being purged 3 s later) while the session's subscriptions are still in its node's transmit queue. Round 6: the answer to the first forwarded publish is lost on the way back (the peer stored the message). Round 7: topics with a `$` level below the first (a/$b) in the matcher and wire alphabets; the world runs the broker's own tap dispatcher, and an environment with a recorder that takes 1 s per message under a burst of 48 publishes must not cost a delivery. Round 8: C02's delivery and stalled-subscriber paths (logs prefilled across the trim offsets) are part of this check.",
     },
     "C07": {
         "engine": "E1-seqx + E2-brokermc",
@@ -249,13 +249,13 @@ META = {
         "engine": "E1-seqx",
         "technique": "exhaustive enumeration of node-history pairs x lost-gossip subsets x snapshot exchange modes on the real replicated state vs a newest-entry-wins reference",
         "text": "Every pair of histories (A: up to 3 operations, B: up to 1 (quick) / 2 (thorough)) over 8-10 session / subscription / retained mutators, every subset of the gossip between the nodes lost, then LocalState->MergeRemoteState A->B, B->A or both; a fresh node must list exactly what the sender lists, a lagging node must hold the newer of both copies (removals included), and after both directions the listings must be identical.",
-        "note": "No clock skew here (C08 covers it); reference computed from the decoded broadcasts each node has seen, and cross-checked against each node's listing before the exchange. One session of the alphabet belongs to a client with an empty client identifier. Round 5: the bytes of a snapshot handed out earlier must not change when a later one is assembled. Round 6: bulk removals (DeletePeer of the other node, DeleteSession) in the alphabet. Round 7: B's clock two hours ahead / nine hours behind (shorter histories of A at the quick depth).",
+        "note": "No clock skew here (C08 covers it); reference computed from the decoded broadcasts each node has seen, and cross-checked against each node's listing before the exchange. One session of the alphabet belongs to a client with an empty client identifier. Round 5: the bytes of a snapshot handed out earlier must not change when a later one is assembled. Round 6: bulk removals (DeletePeer of the other node, DeleteSession) in the alphabet. Round 7: B's clock two hours ahead / nine hours behind (shorter histories of A at the quick depth). Round 8: the whole alphabet at the quick depth; in half of the cases an hour passes between the last change and the exchange.",
     },
     "C09": {
         "engine": "E1-seqx",
         "technique": "exhaustive bounded operation sequences on the real replicated state, mirror node fed with the queued broadcasts, listing comparison after every step",
         "text": "Every sequence of depth 4 (quick) / 5 (thorough) over 25 session / subscription / retained mutators incl. DeleteSession and DeletePeer bulk operations, from an empty node and from a node preloaded with another peer's entries; after each operation the origin's queue is drained into a mirror whose listing must equal the origin's, and every changed key must be named by that operation's broadcast.",
-        "note": "Strictly increasing logical clock through the verif hook VerifSetClock; one broadcast per operation is delivered in order (reordering is C08's subject). Additionally every sequence one operation shorter under a clock that never advances (all changes within one reading; in-order mirror only: equal subscription stamps are a genuine tie for reordered delivery); one session has an empty client identifier. Round 6: depth-2 sequences under the broker's default stdout audit recorder (it returns an error for session identifiers shorter than 8 characters). Round 7: QoS 3 subscription, 300-byte payload and 134-byte topic in the alphabet.",
+        "note": "Strictly increasing logical clock through the verif hook VerifSetClock; one broadcast per operation is delivered in order (reordering is C08's subject). Additionally every sequence one operation shorter under a clock that never advances (all changes within one reading; in-order mirror only: equal subscription stamps are a genuine tie for reordered delivery); one session has an empty client identifier. Round 6: depth-2 sequences under the broker's default stdout audit recorder (it returns an error for session identifiers shorter than 8 characters). Round 7: QoS 3 subscription, 300-byte payload and 134-byte topic in the alphabet. Round 8: a second session of the same client (sess.Create(s3, client c1)).",
     },
     "C16": {
         "engine": "E1-seqx + E2-brokermc",
@@ -267,7 +267,7 @@ META = {
         "engine": "E1-seqx + E4-schedx",
         "technique": "exhaustive bounded operation sequences on the real in-flight queue vs a map model; exhaustive preemption-bounded interleavings for the concurrent clause",
         "text": "Every register/acknowledge/sweep sequence up to depth 4 (quick) / 5 (thorough) over 3 colliding keys, 2-4 packet kinds, equal / same-second / past / future deadlines, wrong-type and unknown-id acknowledgements and 3 sweep times, on the real ack.Queue over both timeout-list implementations; each entry must get exactly one outcome, duplicates are rejected, no operation touches another entry, and a final far-future sweep must resolve everything pending.",
-        "note": "Deadline/sweep domains keep every (deadline, now) pair >= 1 s apart so rounding inside a second is never judged. Spurious List.Expire results for already-deleted ids are not judged. Keys (s,1), (s,11), (s1,1): the last two run together into the same characters. A timer-list phase drives the deadline list directly (Insert/Delete/Expire over 3 keys with same-second, out-of-order, past and future deadlines, depth 4/5) with the queue's call discipline: a deleted entry is never reported, an armed one exactly once. Round 5: the timer-list phase also inserts every arrival order of 6 and 7 deadlines lying in distinct seconds and sweeps once at 8 instants. Round 6: 40 entries one second apart, one late sweep. Round 7: whole-broker phase other-session-ends (an exchange of each kind in flight while another session ends by each cause at +0.1/+1.2/+2.3 s, judged against the deadline observed at the queue seam); E4 scenario with an expiry callback that registers again; sequential reference runs are watched (a single-thread sequence that does not return is a violation).",
+        "note": "Deadline/sweep domains keep every (deadline, now) pair >= 1 s apart so rounding inside a second is never judged. Spurious List.Expire results for already-deleted ids are not judged. Keys (s,1), (s,11), (s1,1): the last two run together into the same characters. A timer-list phase drives the deadline list directly (Insert/Delete/Expire over 3 keys with same-second, out-of-order, past and future deadlines, depth 4/5) with the queue's call discipline: a deleted entry is never reported, an armed one exactly once. Round 5: the timer-list phase also inserts every arrival order of 6 and 7 deadlines lying in distinct seconds and sweeps once at 8 instants. Round 6: 40 entries one second apart, one late sweep. Round 7: whole-broker phase other-session-ends (an exchange of each kind in flight while another session ends by each cause at +0.1/+1.2/+2.3 s, judged against the deadline observed at the queue seam); E4 scenario with an expiry callback that registers again; sequential reference runs are watched (a single-thread sequence that does not return is a violation). Round 8: pending kind inbound-qos2-released-late (nothing else in flight; PUBREL 3 s after the registered deadline finds no exchange); E4 scenario where a deletion empties a second's bucket while registrations for that second arrive.",
     },
     "C06": {
         "engine": "E1-seqx",
@@ -279,6 +279,6 @@ META = {
         "engine": "E1-seqx",
         "technique": "explicit-state BFS to fixpoint over the real tries vs a map reference model",
         "text": "Every reachable state of topics.Store and subscriptions.Tree over 5 (quick) / 8 (thorough) prefix-sharing keys under insert/replace/remove/upsert and dump+load round trips is visited (BFS to fixpoint, state = exact internal node tree incl. nil-vs-empty child maps + reference map); after every transition Match/Walk on every key, Count and Iterate are compared with a plain map.",
-        "note": "Keys and values are a small alphabet; trie behaviour is assumed uniform in the level strings. Internal tree read through reflection (field `root`). Every transition is also bracketed by two dumps: the one taken before it must still rebuild the state it was taken in after the operation and the later dump. Round 5: the state key of the search is a reflection-based rendering of every field of the store (hidden caches and indexes included, pointer aliasing preserved); key buffers handed to the stores are overwritten after each call. Round 7: key a/ in the quick subscription index; phase session-topic-list (the session's filter list and mount-point prefixing as a map over full strings; slices handed out earlier are re-read after every step).",
+        "note": "Keys and values are a small alphabet; trie behaviour is assumed uniform in the level strings. Internal tree read through reflection (field `root`). Every transition is also bracketed by two dumps: the one taken before it must still rebuild the state it was taken in after the operation and the later dump. Round 5: the state key of the search is a reflection-based rendering of every field of the store (hidden caches and indexes included, pointer aliasing preserved); key buffers handed to the stores are overwritten after each call. Round 7: key a/ in the quick subscription index; phase session-topic-list (the session's filter list and mount-point prefixing as a map over full strings; slices handed out earlier are re-read after every step). Round 8: phase empty-levels (both stores to fixpoint over a, a/, a/b, a/b/, /a, a//b).",
     },
 }
